@@ -356,6 +356,11 @@ func checkC13(c *h.Check) {
 			}
 			return vs
 		}
+		if strings.HasSuffix(id, "/twin-root") {
+			cs.ID = strings.TrimSuffix(id, "/twin-root")
+			cs = withTwinRoot(cs)
+			files = cs.Files
+		}
 		if c.NoteProgram(files) {
 			cases = append(cases, cs)
 			if mustReject {
@@ -411,6 +416,10 @@ func checkC13(c *h.Check) {
 					// anonymous struct types with fields of the home package's types are identical across packages only if exported; keep
 				}
 				add(fmt.Sprintf("C13/value/%s/parent=%s/home=%d", e.name, p.name, home), c13Render(expr, typ, home == 1, false, ""), why != "", why, e.noEq)
+				if home == 1 && p.name == "whole" {
+					// the same set of the other package used by two identical root packages in one invocation
+					add(fmt.Sprintf("C13/value/%s/parent=%s/home=%d/twin-root", e.name, p.name, home), c13Render(expr, typ, true, false, ""), why != "", why, e.noEq)
+				}
 			}
 		}
 	}
